@@ -67,7 +67,7 @@ def load_via_public_path(path, target, sender):
 
 
 # =========================================================================== Part A
-INBOUND_A = ("app", "gap_app", "gapfill1", "gapfill3", "gapfill_close", "reset_fwd", "pd_fill", "rr", "tr", "hb")
+INBOUND_A = ("app", "gap_app", "gapfill1", "gapfill3", "gapfill_close", "reset_fwd", "reset_back", "pd_fill", "rr", "tr", "hb")
 
 
 class SimA:
@@ -76,8 +76,12 @@ class SimA:
 
         _, role, S, T = root
         self.root = root
+        from mc import sqlproxy
+
         self.tmp = TmpDir()
         self.path = os.path.join(self.tmp.path, "j.db")
+        self.steps = sqlproxy.Steps()
+        sqlproxy.install(self.steps)
         self.w = World1(role, S=S, T=T, journal=Journaler(self.path))
         self.w.connect()
         self.w.logon()
@@ -116,6 +120,52 @@ class SimA:
         w, c = self.w, self.w.c
         self.uid += 1
         st = c.connection_state.name
+        snaps = []
+
+        def before(n, kind, sql):
+            # what a process killed right before this SQL step leaves behind
+            dst = os.path.join(self.tmp.path, f"k{len(snaps)}.db")
+            shutil.copyfile(self.path, dst)
+            if os.path.exists(self.path + "-journal"):
+                shutil.copyfile(self.path + "-journal", dst + "-journal")
+            snaps.append(dst)
+
+        self.steps.before = before
+        try:
+            v = self._apply(ev, w, c, st)
+        finally:
+            self.steps.before = None
+        if v is None:
+            v = self._killed_states_consistent(snaps, ev, st)
+        for p_ in snaps:
+            for q_ in (p_, p_ + "-journal"):
+                if os.path.exists(q_):
+                    os.unlink(q_)
+        return v
+
+    def _killed_states_consistent(self, snaps, ev, st):
+        """Kill at any point between the journal operations of this event: the file must never hold a message row
+        whose number is at or above the stored counter of its direction on the OUTBOUND side (the next
+        incarnation would reuse that number), i.e. a row never exists without its counter update."""
+        for i, path in enumerate(snaps):
+            con = sqlite3.connect(path, timeout=0)
+            try:
+                r = con.execute("SELECT sessionId, outboundSeqNo FROM session WHERE targetCompId=? AND senderCompId=?",
+                                (self.w.T, self.w.S)).fetchone()
+                if r is None:
+                    continue
+                mx = con.execute("SELECT MAX(seqNo) FROM message WHERE session=? AND direction=1", (r[0],)).fetchone()[0]
+            finally:
+                con.close()
+            if mx is not None and mx > r[1]:
+                return {"signature": f"killed_between_journal_operations|outbound_row_without_counter:{ev[0]}_{ev[1]}",
+                        "clause": "killed at any point while sending or receiving ... without ever reusing an outbound MsgSeqNum for a different message",
+                        "detail": {"event": ev, "sql_step": i, "highest_outbound_row": mx, "stored_last_outbound": r[1], "state_before": st}}
+        return None
+
+    def _apply(self, ev, w, c, st):
+        from asyncfix import FIXMessage
+
         if ev[0] == "send":
             w.send(FIXMessage("D", {11: f"s{self.uid}"}))
         else:
@@ -142,6 +192,13 @@ class SimA:
                 n = new - 1
             elif k == "reset_fwd":
                 new = max(self.peer_seq, E) + 2
+                fr = refs.frame("4", n, T, S, [(36, new)])
+                n = new - 1
+                self.gap = True
+            elif k == "reset_back":
+                # reset-mode SequenceReset to a LOWER number (the library honours it; pinned by its tests): the journal
+                # may then hold rows above the counters - a restart must still come back with the live counters
+                new = max(1, E - 2)
                 fr = refs.frame("4", n, T, S, [(36, new)])
                 n = new - 1
                 self.gap = True
